@@ -93,3 +93,25 @@ def for_opts(opts, truth, seed):
 
 def titration_opts(rng):
     return ["--titration-state-method=propka", f"--with-ph={round(rng.uniform(0, 14), 1)}"]
+
+
+def observed_titration(r, m):
+    """{truth ordinal: tuple of titration patches} read off the result through the C06 state observer (atom sets);
+    whether these are the *right* states for the table is C06's subject - the other checks take them as the final
+    state and judge their own property on it."""
+    from ..checks import c06
+    from . import match
+    pairs = match.match_residues(r.bio, m["items"], m["truth"])
+    tord = {id(t): k for k, t in enumerate(m["truth"])}
+    out = {}
+    for residue, tr in pairs:
+        if tr is None or tr["kind"] != "aa":
+            continue
+        t = []
+        for g in ([tr["base"]] if tr["base"] in GROUPS else []) + (["N+"] if tr["pos"] in ("N", "NC") else []) + \
+                (["C-"] if tr["pos"] in ("C", "NC") else []):
+            o = c06.observed_state(g, residue)
+            if o and o != "default":
+                t.append(o)
+        out[tord[id(tr)]] = tuple(t)
+    return out
